@@ -723,3 +723,32 @@ func RenderArg(v reflect.Value) string {
 		return fmt.Sprint(v.Interface())
 	}
 }
+
+
+// Method is the body of a hand-written model method bound to a field (`func (m *M) A(ctx) (string, error)`):
+// like a resolver it is user code invoked with the field's context; it decides by the plan at the field's
+// response path, logs the invocation as a resolver invocation, and yields a string value.
+func Method(ctx context.Context) (string, error) {
+	s := GetState(ctx)
+	fc := graphql.GetFieldContext(ctx)
+	path := PathString(fc.Path())
+	inv := Inv{Path: path, Hook: "resolver", Obj: fc.Object, Field: fc.Field.Name, Start: s.tick()}
+	o, h := s.decide(path, "")
+	wait(ctx, o)
+	switch o.Kind {
+	case "panic":
+		inv.Kind, inv.Msg = "panic", o.Msg
+		s.record(inv)
+		panic(o.Msg)
+	case "error":
+		inv.Kind, inv.Msg = "error", o.Msg
+		s.record(inv)
+		return "", errors.New(o.Msg)
+	}
+	strs := []string{"a", "b", "", "m", "x", "y", "z"}
+	v := strs[int((h>>16)%7)]
+	b, _ := json.Marshal(v)
+	inv.Kind, inv.Val = "value", &V{K: "leaf", Text: string(b)}
+	s.record(inv)
+	return v, nil
+}
